@@ -1,6 +1,7 @@
 import IpcHub.Drv.Util
 import IpcHub.Model.TsInst
 import IpcHub.Spec.TsOracle
+import IpcHub.Spec.HlsOracle
 namespace IpcHub.Drv.C09
 open IpcHub.Ts IpcHub.Drv
 
@@ -106,6 +107,31 @@ def handle : List String → String
             IpcHub.TsSpec.verdict (IpcHub.TsSpec.holds p (judged.flatMap srcOf) impl)
         s!"model={cmpBytes model impl} panic={boolStr panicked} spec={spec}"
     | _, _, _, _ => "bad-op"
+  | "hls" :: toks =>
+    -- the segment files the real hls.SegmentGenerator wrote for these frames (in order, the open one
+    -- last): each a valid transport stream, together carrying every source frame exactly once
+    match kvOf "sps=" toks >>= hexToBytes, kvOf "pps=" toks >>= hexToBytes, kvOf "asc=" toks >>= parseAsc,
+          (toks.filter (fun t => ¬ t.contains '=')).mapM parseAv,
+          ((toks.filter (·.startsWith "seg=")).map (fun (t : String) => (t.drop 4).toString)).mapM hexToBytes with
+    | some sps, some pps, some asc, some frames, some segs =>
+      let truth : Option (Nat × Nat × Nat) :=
+        match (kvOf "truth=" toks).map (fun (t : String) => t.splitOn ",") with
+        | some [(x : String), (y : String), (z : String)] =>
+          match String.toNat? x, String.toNat? y, String.toNat? z with
+          | some x, some y, some z => some (x, y, z) | _, _, _ => none
+        | _ => none
+      let p : IpcHub.TsSpec.Params :=
+        match truth, asc with
+        | some (x, y, z), _ => { sps, pps, aot := x, srIndex := y, chanCfg := z }
+        | none, some a => { sps, pps, aot := a.objectType,
+                            srIndex := (if a.extSampleRate > 0 then a.extSamplingIndex else a.samplingIndex),
+                            chanCfg := a.channelConfig }
+        | none, none => { sps, pps, aot := 0, srIndex := 0, chanCfg := 0 }
+      let spec : Except String Unit := do
+        let pes ← segs.mapM IpcHub.HlsSpec.demuxSegment
+        IpcHub.HlsSpec.checkExactlyOnce p (frames.flatMap srcOf) pes true
+      s!"model=ok panic=0 spec={IpcHub.TsSpec.verdict spec}"
+    | _, _, _, _, _ => "bad-op"
   | "raw" :: toks =>
     match kvOf "impl=" toks >>= hexToBytes, (toks.filter (fun t => ¬ t.contains '=')).mapM parseRaw with
     | some impl, some frames =>
